@@ -132,6 +132,55 @@ class Lock:
         self.fh.close()
 
 
+class CompileSlot:
+    """at most N_SLOTS harness compilations at a time across all concurrently running checks (an ASan build of
+    tapkee.hpp needs ~2 GB; unbounded parallel builds got compilers OOM-killed)"""
+    N_SLOTS = 6
+
+    def __enter__(self):
+        os.makedirs(BUILD_DIR, exist_ok=True)
+        self.fh = None
+        while self.fh is None:
+            for i in range(self.N_SLOTS):
+                fh = open(os.path.join(BUILD_DIR, "compile-slot-%d.lock" % i), "w")
+                try:
+                    fcntl.flock(fh, fcntl.LOCK_EX | fcntl.LOCK_NB)
+                    self.fh = fh
+                    break
+                except OSError:
+                    fh.close()
+            if self.fh is None:
+                time.sleep(1.0)
+        return self
+
+    def __exit__(self, *a):
+        fcntl.flock(self.fh, fcntl.LOCK_UN)
+        self.fh.close()
+
+
+class TreeLock:
+    """Runs against /repo hold this lock SHARED for their whole duration; a run against a scratch copy (TAPKEE_REPO)
+    holds it EXCLUSIVELY, because it regenerates the shared Gen/*.lean tables and rebuilds the shared model drivers
+    from another tree (and restores them before releasing the lock)."""
+
+    def __init__(self, exclusive):
+        os.makedirs(BUILD_DIR, exist_ok=True)
+        self.exclusive = exclusive
+
+    def __enter__(self):
+        self.fh = open(os.path.join(BUILD_DIR, "tree.lock"), "w")
+        fcntl.flock(self.fh, fcntl.LOCK_EX if self.exclusive else fcntl.LOCK_SH)
+        return self
+
+    def __exit__(self, *a):
+        fcntl.flock(self.fh, fcntl.LOCK_UN)
+        self.fh.close()
+
+
+def is_scratch_run():
+    return os.path.realpath(REPO) != "/repo"
+
+
 class Failure:
     def __init__(self, kind, signature, what, case=None, detail=None, broken=None):
         self.kind = kind            # "failing-input" | "no-failing-input-found"
@@ -315,7 +364,15 @@ class Ctx:
                     except OSError:
                         pass
             tmp = out + ".tmp%d" % os.getpid()
-            r = sh([compiler] + flags + [srcp, "-o", tmp])
+            for attempt in range(4):
+                with CompileSlot():
+                    r = sh([compiler] + flags + [srcp, "-o", tmp])
+                killed = r.returncode < 0 or "Killed signal" in r.stdout or "internal compiler error: Killed" in r.stdout \
+                    or "virtual memory exhausted" in r.stdout or "Cannot allocate memory" in r.stdout
+                if r.returncode == 0 or not killed:
+                    break
+                # the compiler was killed (memory pressure from other builds): not a property of the source - wait, retry
+                time.sleep(20 * (attempt + 1))
             if r.returncode != 0:
                 return None, r.stdout
             os.rename(tmp, out)
@@ -427,7 +484,11 @@ class Ctx:
         return [k for k in kf.get("open", []) if k.get("property") == self.prop]
 
     def finish(self, modules):
-        os.makedirs(EVIDENCE_DIR, exist_ok=True)
+        evidence_dir = EVIDENCE_DIR
+        if is_scratch_run():
+            # a run against a scratch copy (seeded change, proposed fix) must not overwrite the evidence of /repo
+            evidence_dir = os.path.join(BUILD_DIR, "scratch-evidence")
+        os.makedirs(evidence_dir, exist_ok=True)
         known = self.known()
         # a failing input supersedes "no-failing-input-found" reports
         real = [f for f in self.failures if f.kind == "failing-input"]
@@ -478,7 +539,7 @@ class Ctx:
         cov.update(self.extra)
         ev = {"property_id": self.prop, "tier": self.tier, "seed": self.seed, "level": "proof", "coverage": cov,
               "assumptions": self.assumptions, "wall_s": round(time.time() - self.t0, 2), "violations": nviol}
-        with open(os.path.join(EVIDENCE_DIR, self.prop + ".json"), "w") as fh:
+        with open(os.path.join(evidence_dir, self.prop + ".json"), "w") as fh:
             json.dump(ev, fh, indent=1, default=str)
         self.log("obligations %d/%d discharged, %d evaluations, %d distinct non-trivial, %d violations, %d known findings"
                  % (ndis, nob, cov["evaluations"], cov["distinct_nontrivial"], nviol, len(self.known_hits)))
